@@ -47,6 +47,10 @@ class CustomError(Exception):
         return (CustomError, (self.args[0], self.code), dict(self.__dict__))
 
 
+def _older_failure():
+    raise RuntimeError("an older failure")
+
+
 def _noted(k):
     """an exception that ALREADY carries a note of the user's own when it leaves the user function (PEP 678)"""
     e = ValueError("boom-with-note", k)
@@ -108,6 +112,8 @@ def snapshot_checks(p, fault, base):
         tmp = boot.mkscratch("c13s-")
         try:
             path = os.path.join(tmp, "snap.pkl")
+            # the file already holds an OLDER snapshot (a user saving "the last error" under one name): saving must replace it
+            ErrorSnapshot(_older_failure, RuntimeError("an older failure"), (), {}).save_to_file(path)
             snap.save_to_file(path)
             loaded = ErrorSnapshot.load_from_file(path)
             for tag, s in (("reproduce", snap), ("reproduce-after-load", loaded)):
